@@ -99,7 +99,7 @@ func VerifH_done() {
 			verifAssert(post.bound[x] && post.boundSC[x] == onSC, "C01: successful BIND did not bind the key to the channel the call was placed on")
 		case isUnbind && kind == 0 && c.unbinds && c.unbindKey == k:
 			verifReach("key unbound")
-			verifAssert(!post.bound[x], "C01: successful UNBIND did not remove the binding")
+			verifAssert(!post.bound[x], "C01,C02: successful UNBIND did not remove the binding (the key must be routed like an unknown key afterwards)")
 		default:
 			verifAssert(post.bound[x] == pre.bound[x] && (!pre.bound[x] || post.boundSC[x] == pre.boundSC[x]), "C01: completion changed a binding it must not change (failed call, already bound key, or other key)")
 		}
